@@ -694,7 +694,7 @@ func runSession(c *Ctx, sidBase string, mode string) {
 			o["can"] = can
 			return o
 		})
-		c.Emit("accept", J{"sid": nd.sid, "msg": msgJ(d.m), "kind": d.kind}, ob)
+		c.Emit("accept", withObsTerm(J{"sid": nd.sid, "msg": msgJ(d.m), "kind": d.kind}, ob), ob)
 		c.Count("handler/delivery/" + d.kind)
 		if can && d.m.Broadcast && d.m.RoundNumber > 0 {
 			k := fmt.Sprintf("%d|%s", d.m.RoundNumber, hx([]byte(d.m.From)))
@@ -751,7 +751,7 @@ func runSession(c *Ctx, sidBase string, mode string) {
 				o["can"] = can
 				return o
 			})
-			c.Emit("accept", J{"sid": nd.sid, "msg": msgJ(d.m), "kind": "late"}, ob)
+			c.Emit("accept", withObsTerm(J{"sid": nd.sid, "msg": msgJ(d.m), "kind": "late"}, ob), ob)
 		}
 	}
 }
@@ -938,6 +938,17 @@ func init() {
 			runSession(c, fmt.Sprintf("s%d", i), modes[i%len(modes)])
 		}
 	})
+}
+
+// withObsTerm passes the observed verdict to the model: Go replays queued messages in map order, so when two queued
+// messages fail differently the verdict is one of several the code can give (the model checks that SOME order gives it)
+func withObsTerm(in J, ob interface{}) J {
+	if o, ok := ob.(J); ok {
+		if t, ok := o["term"].(string); ok {
+			in["obsTerm"] = t
+		}
+	}
+	return in
 }
 
 func newRand(seed int64) *rand.Rand { return rand.New(rand.NewSource(seed)) }
